@@ -25,6 +25,8 @@ pub struct GenOpts {
     pub tiny: bool,
     /// Allow patterns hanging around (large windows, big weight vectors).
     pub max_patterns: usize,
+    /// Append one text of about this many characters (positions beyond 65535).
+    pub force_long_text: Option<usize>,
 }
 
 impl Default for GenOpts {
@@ -38,6 +40,7 @@ impl Default for GenOpts {
             flavor: Flavor::Any,
             tiny: false,
             max_patterns: 12,
+            force_long_text: None,
         }
     }
 }
@@ -53,6 +56,7 @@ impl GenOpts {
             flavor: Flavor::Any,
             tiny: true,
             max_patterns: 4,
+            force_long_text: None,
         }
     }
 }
@@ -127,11 +131,12 @@ fn substrings(rng: &mut Rng, texts: &[Vec<char>], max_len: usize) -> Vec<char> {
 
 fn pattern_len(rng: &mut Rng, cap: usize) -> usize {
     // mostly short, sometimes long (> 8 positions => variable-length weight layout)
-    let l = match rng.weighted(&[40, 30, 20, 10]) {
+    let l = match rng.weighted(&[40, 30, 20, 9, 1]) {
         0 => 1,
         1 => 2,
         2 => rng.urange(3, 4),
-        _ => rng.urange(5, 14),
+        3 => rng.urange(5, 14),
+        _ => rng.urange(15, 80),
     };
     l.min(cap).max(1)
 }
@@ -142,13 +147,31 @@ const TAG_NAMES: &[&str] = &[
 ];
 
 pub fn gen_case(rng: &mut Rng, opts: &GenOpts) -> Case {
-    let alpha_size = if opts.tiny { rng.urange(2, 4) } else { rng.urange(2, 7) };
+    // rare "big" class: hundreds of patterns (large automata, many suffix relations)
+    let big = !opts.tiny && opts.max_text_len >= 40 && rng.chance(1, 40);
+    let alpha_size = if opts.tiny {
+        rng.urange(2, 4)
+    } else if big {
+        rng.urange(6, 10)
+    } else {
+        rng.urange(2, 7)
+    };
     let alpha = text::alphabet(rng, alpha_size, opts.flavor);
     let n_texts = rng.urange(opts.min_texts, opts.max_texts);
     let mut texts = vec![];
     for _ in 0..n_texts {
         let len = text::text_len(rng, opts.max_text_len);
         texts.push(text::text_from(rng, &alpha, len));
+    }
+    if let Some(n) = opts.force_long_text {
+        let len = n + rng.below(n / 8 + 1);
+        texts.push(text::text_from(rng, &alpha, len));
+    }
+    if big {
+        for _ in 0..2 {
+            let len = rng.urange(opts.max_text_len.min(150), opts.max_text_len.min(500));
+            texts.push(text::text_from(rng, &alpha, len));
+        }
     }
     let types: Vec<Vec<char>> = texts
         .iter()
@@ -168,10 +191,10 @@ pub fn gen_case(rng: &mut Rng, opts: &GenOpts) -> Case {
         WClass::Sparse => "sparse",
     };
 
-    let maxp = opts.max_patterns;
+    let maxp = if big { rng.urange(100, 500) } else { opts.max_patterns };
     // --- char n-grams
     let mut char_set: BTreeSet<Vec<char>> = BTreeSet::new();
-    let n_char = if rng.chance(1, 8) { 0 } else { rng.urange(1, maxp) };
+    let n_char = if rng.chance(1, 8) { 0 } else if big { rng.urange(maxp / 2, maxp) } else { rng.urange(1, maxp) };
     for _ in 0..n_char {
         let cap = 2 * usize::from(wc);
         let t = rng.pick(&texts).clone();
@@ -190,7 +213,7 @@ pub fn gen_case(rng: &mut Rng, opts: &GenOpts) -> Case {
     }
     // --- dictionary
     let mut dict_set: BTreeSet<Vec<char>> = BTreeSet::new();
-    let n_dict = if rng.chance(1, 4) { 0 } else { rng.urange(1, maxp.min(8)) };
+    let n_dict = if rng.chance(1, 4) { 0 } else if big { rng.urange(20, maxp / 2) } else { rng.urange(1, maxp.min(8)) };
     for _ in 0..n_dict {
         let w = if rng.chance(1, 4) && !char_set.is_empty() {
             // entry equal to a char n-gram
@@ -210,7 +233,7 @@ pub fn gen_case(rng: &mut Rng, opts: &GenOpts) -> Case {
     }
     // --- type n-grams
     let mut type_set: BTreeSet<Vec<u8>> = BTreeSet::new();
-    let n_type = if rng.chance(1, 6) { 0 } else { rng.urange(1, maxp.min(8)) };
+    let n_type = if rng.chance(1, 6) { 0 } else if big { rng.urange(20, maxp / 3) } else { rng.urange(1, maxp.min(8)) };
     for _ in 0..n_type {
         let cap = 2 * usize::from(wt);
         let t = rng.pick(&types).clone();
@@ -331,6 +354,15 @@ pub fn gen_case(rng: &mut Rng, opts: &GenOpts) -> Case {
                 type_ngram_model,
                 bias: (0..n_class).map(|_| gen_weight(rng, tclass)).collect(),
             });
+        }
+        // rare: a candidate whose score is a 32-bit extreme (no n-gram touches that model, so no sum can overflow)
+        if rng.chance(1, 25) {
+            if let Some(tm) = tag_models.iter_mut().find(|t| t.bias.len() >= 2) {
+                tm.char_ngram_model.clear();
+                tm.type_ngram_model.clear();
+                let j = rng.below(tm.bias.len());
+                tm.bias[j] = *rng.pick(&[i32::MIN, i32::MAX, i32::MIN + 1]);
+            }
         }
         rng.shuffle(&mut tag_models);
     }
